@@ -19,15 +19,16 @@ type actorState struct {
 
 // connState is the run-time state of a plan connection.
 type connState struct {
-	idx      int
-	plan     *ConnPlan
-	peer     *simnet.Peer
-	midFrame bool
-	ncmd     int      // platform commands received so far (index into React)
-	resp     []respOp // queued reactive responses
-	respSeq  int
-	tserial  uint16 // serial counter for frames the reactive terminal sends
-	outBuf   []byte
+	idx       int
+	plan      *ConnPlan
+	peer      *simnet.Peer
+	midFrame  bool
+	ncmd      int      // platform commands received so far (index into React)
+	resp      []respOp // queued reactive responses
+	respSeq   int
+	tserial   uint16 // serial counter for frames the reactive terminal sends
+	outBuf    []byte
+	srvClosed bool // the server closed its end
 }
 
 type respOp struct {
@@ -89,6 +90,9 @@ func (w *world) enabled(as *actorState) (bool, string) {
 		if dep != nil && dep.pc < op.After.N {
 			return false, ""
 		}
+	}
+	if op.AfterClose > 0 && !w.conns[op.AfterClose-1].srvClosed {
+		return false, ""
 	}
 	if as.a.Conn >= 0 {
 		cs := w.conns[as.a.Conn]
@@ -284,6 +288,26 @@ func (w *world) onServerWrite(p *simnet.Peer, b []byte, err error) {
 		return fr.Encode()
 	}
 	at := time.Now().Add(time.Duration(re.Delay))
+	if (re.Kind == "ok" || re.Kind == "late") && re.Sub >= 2 && len(body) >= 2*re.Sub {
+		// the answer is long enough for the terminal to send it as sub-packages (all at once, in order)
+		cs.tserial++
+		first := 0x7000 + cs.tserial
+		per := len(body) / re.Sub
+		for i := 0; i < re.Sub; i++ {
+			piece := body[i*per : (i+1)*per]
+			if i == re.Sub-1 {
+				piece = body[i*per:]
+			}
+			fr := ref.Frame{ID: rid, Ver19: cs.plan.Ver19, VerByte: 1, Phone: cs.plan.Phone, Serial: first + uint16(i), Body: piece, Sub: true, Total: uint16(re.Sub), No: uint16(i + 1)}
+			cs.resp = append(cs.resp, respOp{at: at, frame: fr.Encode(), note: re.Kind})
+		}
+		cs.tserial += uint16(re.Sub)
+		w.fault("resp.sub_packaged")
+		if re.Kind == "late" {
+			w.fault("resp.late")
+		}
+		return
+	}
 	switch re.Kind {
 	case "ok", "late":
 		cs.resp = append(cs.resp, respOp{at: at, frame: mk(f.Serial, body), note: re.Kind})
@@ -309,6 +333,7 @@ func (w *world) onServerWrite(p *simnet.Peer, b []byte, err error) {
 //go:norace
 func (w *world) onServerClose(p *simnet.Peer) {
 	if cs, _ := p.User.(*connState); cs != nil {
+		cs.srvClosed = true
 		w.rec(Ev{K: KSrvClose, C: cs.idx, G: simrt.CurName()})
 	}
 }
@@ -384,6 +409,12 @@ func responseFor(cmd, serial uint16, variant int) (uint16, []byte) {
 	case 0x9003:
 		return 0x1003, []byte{0, 1, 0, 1, 0, 0x40, 1, 0x62, 2, 2}
 	default: // 0x8103, 0x9101, 0x9102, 0x9105, 0x9201, 0x9202, 0x9207, 0x9208 ...: general response
+		if r != nil && r.chance(25) {
+			// some terminals fill the "answered id" field carelessly (0, or the previous command's id): the response
+			// still echoes the command's serial number, which is what it is matched by
+			id := uint16(r.pick(0, 0x8103, 0x9101, 0x8f00))
+			return 0x0001, append(s, byte(id>>8), byte(id), byte(r.intn(4)))
+		}
 		return 0x0001, append(s, byte(cmd>>8), byte(cmd), 0)
 	}
 }
